@@ -76,7 +76,7 @@ let build kind elem path (rest : string list) : obj =
   | "rsq256" | "rsq512" ->
     let b = n_of_int (if kind = "rsq256" then 256 else 512) in
     (match path with
-     | "default" -> Rsq (b, rsq_default)
+     | "default" -> of_outcome (fun r -> Rsq (b, r)) (rsq_default b)
      | _ -> of_outcome (fun r -> Rsq (b, r)) (rsq_new b (List.map n_of_string (vals ()))))
   | "qwt256" | "qwt512" | "qwt256pfs" | "qwt512pfs" ->
     let b = n_of_int (if kind = "qwt256" || kind = "qwt256pfs" then 256 else 512) in
